@@ -315,8 +315,13 @@ def replace_star_with_str(obj, value):
 
 def expand_plates(obj, parent=None, idx=None):
     if isinstance(obj, list):
-        for i, element in enumerate(obj):
-            expand_plates(element, obj, i)
+        i = 0
+        while i < len(obj):
+            size = len(obj)
+            expand_plates(obj[i], obj, i)
+            # a plate is replaced in place by its (already expanded) clones:
+            # continue after them, or at the same index if there are none
+            i += 1 + len(obj) - size
     elif isinstance(obj, dict):
         if 'type' in obj and obj['type'].endswith('Plate'):
             if 'range' in obj:
